@@ -188,7 +188,7 @@ def build_obligation(prop, cfg, db, fn, contract, replace_contracts=None):
     return ob
 
 
-LIBM_BUILTIN = ('__builtin_inff', '__builtin_inf', '__builtin_nanf', '__builtin_nan')
+LIBM_BUILTIN = ('__builtin_inff', '__builtin_inf', '__builtin_nanf', '__builtin_nan', '__builtin_prefetch', '_mm_malloc', '_mm_free')
 
 
 def model_text(names):
@@ -239,7 +239,7 @@ def parse_cbmc_json(out):
     return res
 
 
-def discharge(ob_text, cname, replace, workdir, flags, timeout_fast, timeout_slow, loops=False, unwind=None, defines=()):
+def discharge(ob_text, cname, replace, workdir, flags, timeout_fast, timeout_slow, loops=False, unwind=None, defines=(), extra_cbmc=()):
     """run goto-cc / goto-instrument / cbmc on one TU.  returns dict"""
     os.makedirs(workdir, exist_ok=True)
     src = os.path.join(workdir, 'tu.c')
@@ -266,6 +266,7 @@ def discharge(ob_text, cname, replace, workdir, flags, timeout_fast, timeout_slo
     base = ['cbmc', os.path.join(workdir, 'b.gb'), '--json-ui', '--trace', '--object-bits', '12']
     if unwind:
         base += ['--unwind', str(unwind), '--unwinding-assertions']
+    base += list(extra_cbmc)
     # cadical (linked into cbmc, no CNF file) is the deciding back end; kissat is the fall-back for slow queries.
     # minisat is not used: it cannot match even identical multiplier circuits through SSA copies.
     attempts = [('cadical', ['--sat-solver', 'cadical'], timeout_fast if ('mul' not in flags and 'div' not in flags) else timeout_slow)]
@@ -300,8 +301,8 @@ def discharge(ob_text, cname, replace, workdir, flags, timeout_fast, timeout_slo
 
 
 def _worker(args):
-    key, text, cname, replace, workdir, flags, tf, ts, loops, unwind, defines = args
-    r = discharge(text, cname, replace, workdir, flags, tf, ts, loops, unwind, defines)
+    key, text, cname, replace, workdir, flags, tf, ts, loops, unwind, defines, extra_cbmc = args
+    r = discharge(text, cname, replace, workdir, flags, tf, ts, loops, unwind, defines, extra_cbmc)
     # traces can be large: keep only the failing properties' traces, trimmed to harness-level assignments
     for p in r['props']:
         if 'trace' in p:
@@ -362,7 +363,7 @@ def run_obligations(obs, scratch, tier, progress=True):
     for ob in obs:
         c = ob.contract
         wd = scratch.path('ob-' + ob.key)
-        jobs.append((ob.key, ob.text, ob.cname, ob.replace, wd, c.flags, tf, ts, bool(c.loops), getattr(c, 'unwind', None), ob.defines))
+        jobs.append((ob.key, ob.text, ob.cname, ob.replace, wd, c.flags, tf, ts, bool(c.loops), getattr(c, 'unwind', None), ob.defines, getattr(c, 'cbmc_flags', ())))
     bykey = {ob.key: ob for ob in obs}
     done = 0
     t0 = time.time()
